@@ -263,6 +263,7 @@ func (s *bulkSide) singleAt(o bulkOp, ids []uint64) elemOutcome {
 type bulkMode struct {
 	Atomic, Continue, Parallel bool
 	HTTP                       bool
+	Stream                     bool // HTTP only: the elements are sent as a stream of JSON documents (bulk+json-stream)
 }
 
 func (m bulkMode) String() string {
@@ -281,6 +282,9 @@ func (m bulkMode) String() string {
 	}
 	if m.HTTP {
 		parts = append(parts, "http")
+	}
+	if m.Stream {
+		parts = append(parts, "json-stream")
 	}
 	return strings.Join(parts, "+")
 }
@@ -357,8 +361,23 @@ func (s *bulkSide) runBulk(t T, ops []bulkOp, m bulkMode, router http.Handler) (
 		stats.HarnessError(t, "marshal bulk: %v", err)
 	}
 	url := fmt.Sprintf("/v2/%s/_bulk?atomic=%v&continueOnFailure=%v&parallel=%v", s.name, m.Atomic, m.Continue, m.Parallel)
+	contentType := "application/json"
+	if m.Stream {
+		// the same elements, one JSON document after the other
+		contentType = "application/vnd.formance.ledger.api.v2.bulk+json-stream"
+		var sb bytes.Buffer
+		for _, el := range wire {
+			b, err := json.Marshal(el)
+			if err != nil {
+				stats.HarnessError(t, "marshal bulk element: %v", err)
+			}
+			sb.Write(b)
+			sb.WriteByte('\n')
+		}
+		body = sb.Bytes()
+	}
 	req := httptest.NewRequest(http.MethodPost, url, bytes.NewReader(body))
-	req.Header.Set("Content-Type", "application/json")
+	req.Header.Set("Content-Type", contentType)
 	rec := httptest.NewRecorder()
 	router.ServeHTTP(rec, req)
 	var resp struct {
@@ -579,6 +598,7 @@ func TestC32(t *testing.T) {
 				m.Continue = rapid.Bool().Draw(rt, "parallelContinue")
 			}
 			m.HTTP = m.Parallel || rapid.Bool().Draw(rt, "http")
+			m.Stream = m.HTTP && rapid.IntRange(0, 2).Draw(rt, "jsonStream") == 0
 			size := rapid.IntRange(1, 5).Draw(rt, "bulkSize")
 			if rapid.IntRange(0, 5).Draw(rt, "bigBulk") == 0 {
 				size = rapid.IntRange(12, 16).Draw(rt, "bigSize")
